@@ -17,7 +17,7 @@ READ_METHODS = {'read', 'readline', 'readexactly', 'readuntil', 'read_reply', 'r
 
 
 class Taint:
-    def __init__(self, repo, res, seed_params=(), source_receivers=('connection', 'reader', '_control_stream', 'data_stream'),
+    def __init__(self, repo, res, seed_params=(), source_receivers=('connection', 'reader', '_control_stream', 'data_stream', 'body'),
                  exclude=('wpull.thirdparty',), untaint_calls=(), clean=None):
         self.repo = repo
         self.res = res
